@@ -1,5 +1,6 @@
 import HappyProofs.C05.CoordR
 import HappyProofs.C05.Prefix
+import HappyModel.C05.SpecS
 /-!
 The stateful-handler theorems for what the driver's `runs` mode executes: the stateful harness entity
 `ruleHandlerL` (= `liftP (ruleHandler …)`), the coordinator with the code's creation indices
@@ -230,6 +231,29 @@ theorem parallelRunFrom_spec {σ : Type} (h : Handler σ) (c : Cfg) (strict : Bo
       | nil => exact absurd hc hl
       | cons _ _ => rfl
     simp [parallelRunFrom, parallelRunRFrom, this]
+
+/-- **judgeAccepted_none_iff** — the accepted-configuration clause passes exactly when the effective window
+    is at most every effective link minimum (`WindowLeLat`, the hypothesis of every coordinator theorem) -/
+theorem judgeAccepted_none_iff (wEff : Nat) (effLats : List Nat) :
+    judgeAccepted wEff effLats = none ↔ ∀ l ∈ effLats, wEff ≤ l := by
+  unfold judgeAccepted
+  constructor
+  · intro h l hl
+    by_cases hlt : l < wEff
+    · have : effLats.any (fun l => decide (l < wEff)) = true :=
+        List.any_eq_true.mpr ⟨l, hl, by simpa using hlt⟩
+      simp [this] at h
+    · omega
+  · intro h
+    have : effLats.any (fun l => decide (l < wEff)) = false := by
+      rw [List.any_eq_false]
+      intro l hl
+      have := h l hl
+      simp; omega
+    simp [this]
+
+example : judgeAccepted 50000000 [49999999, 100000000] = some "par/invalid-configuration-accepted"
+    ∧ judgeAccepted 49999999 [49999999, 100000000] = none := by decide
 
 /-! ## non-vacuity: the corpus witness `corpus/C05/tie-order-first-kind-wins.json` as the driver runs it -/
 
